@@ -151,7 +151,7 @@ func GenScenario(r *rand.Rand, c04 bool) *Scenario {
 				seen = true
 				continue
 			}
-			if false && seen && (s.Steps[j].Kind == "opensub" || s.Steps[j].Kind == "closesub" || s.Steps[j].Kind == "final") {
+			if seen && (s.Steps[j].Kind == "opensub" || s.Steps[j].Kind == "closesub" || s.Steps[j].Kind == "final") {
 				s.Steps[j] = Step{Kind: "pay", By: s.Steps[j].By, Amt: amt(), Accept: true}
 			}
 		}
